@@ -19,6 +19,7 @@ package main
 // processor on the captured prefix: `reportedAllSnap`) and from the Spec (`replyRecord`).
 
 import (
+	"math/rand"
 	"encoding/binary"
 	"encoding/json"
 	"fmt"
@@ -200,6 +201,9 @@ func isProbe(cmd string, vpn bool, b []byte, target rangeSpec, ports [][2]uint16
 		return false
 	}
 	dp := binary.BigEndian.Uint16(b[ihl+2 : ihl+4])
+	if cmd == "tcpSyn" && (len(b) < ihl+14 || b[ihl+13] != 0x02) {
+		return false // the kernel's own RSTs (its answers to the background noise) are not probes of the scan
+	}
 	for _, p := range ports {
 		if p[0] <= dp && dp <= p[1] {
 			return true
@@ -317,6 +321,30 @@ func (g *frameGen) mustFrames(kind string, vpn bool, r rangeSpec, syn bool, othe
 
 var replyFileCtr int
 
+// tcpNoiseFrame: a well-formed Ethernet/IPv4/TCP segment (checksums valid) from src:sport to dst:dport with these flags
+func tcpNoiseFrame(src, dst uint32, sport, dport uint16, flags byte) []byte {
+	f := make([]byte, 60)
+	copy(f[0:6], []byte{2, 0, 0, 0, 0, 1})
+	copy(f[6:12], []byte{0x02, 0, 0xaa, 0, 0, 0x66})
+	f[12], f[13] = 8, 0
+	ip := f[14:34]
+	ip[0], ip[8], ip[9] = 0x45, 64, 6
+	binary.BigEndian.PutUint16(ip[2:4], 40)
+	binary.BigEndian.PutUint16(ip[4:6], uint16(sport)^0x5a5a)
+	binary.BigEndian.PutUint32(ip[12:16], src)
+	binary.BigEndian.PutUint32(ip[16:20], dst)
+	binary.BigEndian.PutUint16(ip[10:12], ipChecksum(ip))
+	t := f[34:54]
+	binary.BigEndian.PutUint16(t[0:2], sport)
+	binary.BigEndian.PutUint16(t[2:4], dport)
+	binary.BigEndian.PutUint32(t[4:8], 0x01020304)
+	binary.BigEndian.PutUint32(t[8:12], 0x05060708)
+	t[12], t[13] = 0x50, flags
+	binary.BigEndian.PutUint16(t[14:16], 512)
+	binary.BigEndian.PutUint16(t[16:18], tcpChecksum(ip[12:16], ip[16:20], t))
+	return f
+}
+
 func runReplyCase(r *hx.Run, g *frameGen, w wire, dir string, dropsTagged string, row wiringRow, vpn bool, target rangeSpec, chunks [][][2]uint16, nRandom int) {
 	kind := row.kind()
 	syn := row.Cmd == "tcpSyn"
@@ -405,6 +433,54 @@ func runReplyCase(r *hx.Run, g *frameGen, w wire, dir string, dropsTagged string
 			r.Count("frame/" + kind + "/" + cs[i])
 		}
 	}
+
+	// ---- background noise (SYN scans on Ethernet): from BEFORE the process starts until it has ended — so also in the
+	// window between the creation of a capture socket and the moment its filter is in place, at every port chunk — the
+	// scanned hosts send TCP segments from ports of the range that are not SYN+ACK (RST+ACK of closed ports, ACKs,
+	// FIN+ACKs: what a network does all the time).  None of them is an answer a SYN scan reports.
+	stopNoise := make(chan struct{})
+	var noiseWG sync.WaitGroup
+	if row.Cmd == "tcpSyn" && !vpn && len(all) > 0 {
+		r.Count("with-noise")
+		noiseWG.Add(1)
+		go func() {
+			defer noiseWG.Done()
+			nrng := rand.New(rand.NewSource(int64(target.addr) + int64(len(all))))
+			for {
+				select {
+				case <-stopNoise:
+					return
+				default:
+				}
+				pr := all[nrng.Intn(len(all))]
+				sport := pr[0] + uint16(nrng.Intn(int(pr[1]-pr[0])+1))
+				src := target.addr + uint32(nrng.Intn(1<<uint(32-target.bits)))
+				flags := []byte{0x14, 0x10, 0x11, 0x04, 0x18}[nrng.Intn(5)]
+				if nrng.Intn(4) == 0 {
+					// … and SYN+ACKs of hosts that are not scanned (another subnet's traffic on the same link)
+					flags = 0x12
+					src = labNet | 250
+					if target.addr&maskOf(target.bits) == src&maskOf(target.bits) {
+						src = labNet | 5
+					}
+					if src&maskOf(target.bits) == target.addr {
+						flags = 0x14
+					}
+				}
+				w.inject(tcpNoiseFrame(src, labNet|1, sport, uint16(32768+nrng.Intn(28000)), flags))
+				time.Sleep(300 * time.Microsecond)
+			}
+		}()
+		time.Sleep(20 * time.Millisecond)
+	}
+	defer func() {
+		select {
+		case <-stopNoise:
+		default:
+			close(stopNoise)
+		}
+		noiseWG.Wait()
+	}()
 
 	// ---- run: start sx, wait for the first probe of each engine run, then put that run's batch on the wire ----
 	from := len(w.since(0))
